@@ -21,12 +21,16 @@ using namespace vc;
 #  define C04_PTR uint16_t
 #endif
 using PtrT = C04_PTR;
+#ifdef C04_LOG
+using Cfg = mb::cfg<PtrT, mb::abi_lp32, mb::C04_MODE, 4, false, C04_LOG>;
+#else
 using Cfg = mb::cfg<PtrT, mb::abi_lp32, mb::C04_MODE, 4>;
+#endif
 using SB = mb::mbox<Cfg>;
 using sbx_t = rlbox::rlbox_sandbox<SB>;
 template<class T>
 using tn = rlbox::tainted<T, SB>;
-using VSG = std::conditional_t<sizeof(PtrT) == 2, VS_lp32_p16, VS_lp32_p32>;
+using VSG = std::conditional_t<sizeof(PtrT) == 2, VS_lp32_p16, std::conditional_t<sizeof(PtrT) == 4, VS_lp32_p32, VS_lp32_p64>>;
 static const uint64_t kSize = SB::kSize;
 static const char* kMode = mb::C04_MODE == mb::MASK ? "mask" : "registry";
 
@@ -234,6 +238,7 @@ static const void* fn_of(int k)
 static void world_check(World& w)
 {
   n_states++;
+  SB::dead_queries() = 0;
   std::vector<uint64_t> offs = { 1, 2, 7, 8, 0x100, 0x7ffe, 0x8000, 0xfffe, 0xffff, kSize - 1, kSize / 2 + 1 };
   for (int i : w.order) {
     auto& sb = w.s[i];
@@ -298,6 +303,12 @@ static void world_check(World& w)
   }
 }
 
+static void world_check_registry(World& w)
+{
+  if (SB::dead_queries() != 0)
+    viol(std::string("C04 mode=") + kMode + " history kind=consulted-destroyed-sandbox", "hist|" + w.hist, "while translating pointers of live instances the library asked a sandbox object that is NOT created whether an address is in its memory (" + std::to_string(SB::dead_queries()) + " queries): the live list holds a destroyed instance");
+  SB::dead_queries() = 0;
+}
 static void world_apply(World& w, int i)
 {
   if (!w.live[i]) {
@@ -318,6 +329,9 @@ static void world_apply(World& w, int i)
 
 static void run_history(const std::vector<int>& h, std::set<std::string>& lists)
 {
+  // every history starts from an empty process-wide list (read/cleared through -fno-access-control), so that a
+  // history's verdict does not depend on the histories executed before it in this process
+  sbx_t::sandbox_list.clear();
   World w;
   for (int i : h) {
     world_apply(w, i);
@@ -326,6 +340,7 @@ static void run_history(const std::vector<int>& h, std::set<std::string>& lists)
   for (int i : w.order) l += std::to_string(i);
   lists.insert(l);
   world_check(w);
+  world_check_registry(w);
   for (int i = 0; i < 3; i++)
     if (w.live[i]) w.s[i].destroy_sandbox();
 }
